@@ -9,9 +9,11 @@ namespace drv {
 enum Caps { C_INSF = 1, C_UPD = 2, C_ERA = 4, C_ERAF = 8, C_EXT = 16, C_GET = 32, C_FINDF = 64, C_EMP = 128, C_MINMAX = 256, C_UNL = 512, C_CLEAR = 1024, C_TRAV = 2048, C_CHECK = 4096, C_SIZE = 8192, C_NOEMPTY = 16384, C_ITER = 32768, C_RITER = 65536 };
 static thread_local int t_uniq = 0;
 inline int new_id(int key) { return key * 100 + t_id * 10 + (++t_uniq % 10); }   // unique per (thread, counter) for up to 10 inserts per key and thread
+// optional audit hook called after every operation (set_lock: attribution of lost elements, see set_lock.cpp)
+inline std::function<void(const Op&)>& after_op_hook() { static std::function<void(const Op&)> f; return f; }
 template <class Ad> void run_set_program(const Program& P, Ad& ad, std::function<void()> pre = nullptr, std::function<void()> post = nullptr) {
   const unsigned caps = ad.caps();
-  auto doop = [&](const Op& o) {
+  std::function<void(const Op&)> doop = [&](const Op& o) {
     int k = (int)o.arg(0); const std::string& n = o.name;
     if (n == "ins") { int id = new_id(k); inv("ins", k, id); bool r = ad.ins(k, id); ret(r); }
     else if (n == "emp") { if (!(caps & C_EMP)) return; int id = new_id(k); inv("emp", k, id); bool r = ad.emp(k, id); ret(r); }
@@ -39,6 +41,8 @@ template <class Ad> void run_set_program(const Program& P, Ad& ad, std::function
       if (found) ret(r); }
     else if (n == "check") { if (!(caps & C_CHECK)) return; if (!ad.consistent()) xev("crash", 1); }
   };
+  auto doop0 = doop;
+  if (after_op_hook()) doop = [&, doop0](const Op& o) { doop0(o); after_op_hook()(o); };
   t_uniq = 0;
   for (auto& o : P.init) doop(o);
   run_threads(P, doop, [&] { t_uniq = 0; if (pre) pre(); }, post);
